@@ -1,8 +1,308 @@
-//! C03 part `storage`: injected storage faults through the syscall shim (see fsshim).
-use crate::common::runner::Ctx;
+//! C03 part `storage`: injected storage faults through the syscall shim.
+//!
+//! For a generated history the n-th write / fsync / fdatasync / ftruncate / rename under the
+//! data directory fails with a generated errno (ENOSPC, EIO, EDQUOT, EINTR, EACCES or a short
+//! write), after a generated partial length, `repeat` times in a row (8 out-lasts the engine's
+//! retry loop and also hits its own rollback truncate).
+//! Oracle per operation: Err => live state as before the call; Ok => applied.  After every
+//! operation during which the fault fired or that returned Err, a copy of the directory is
+//! recovered in strict mode and must equal the model (acknowledged operations only).
 
-pub fn run(_ctx: &Ctx) {}
+use crate::common::eng::{copy_dir, diff_dumps, dump_backend, BackendCfg, Dump, Fsync};
+use crate::common::gens::DIMS_SMALL;
+use crate::common::hist::{decode_bop, model_apply, BOp};
+use crate::common::model::{bits_of, meta_to_hash, Model};
+use crate::common::runner::*;
+use crate::common::shim::{self, Shim};
+use crate::common::tape::Tape;
+use serde::{Deserialize, Serialize};
+use serde_json::json;
 
-pub fn replay(_ctx: &Ctx, _v: &serde_json::Value) -> Option<i32> {
-    None
+#[derive(Clone, Debug, Serialize, Deserialize)]
+pub struct FaultSpec {
+    /// shim kind mask (one bit)
+    pub kind: i32,
+    pub nth_sel: u16,
+    pub errno: i32,
+    /// 0 = nothing written, 1 = one byte, 2 = half, 3 = all but one byte
+    pub partial_sel: u8,
+    pub repeat: i32,
+}
+
+#[derive(Clone, Debug, Serialize, Deserialize)]
+pub struct Case {
+    pub cfg: BackendCfg,
+    pub pool: usize,
+    pub ops: Vec<BOp>,
+    pub fault: FaultSpec,
+}
+
+pub struct Storage;
+
+fn kind_name(k: i32) -> String {
+    let mut parts = vec![];
+    for (bit, name) in [(shim::F_WRITE, "write"), (shim::F_FSYNC, "fsync"), (shim::F_FDATASYNC, "fdatasync"), (shim::F_FTRUNCATE, "ftruncate"), (shim::F_RENAME, "rename")] {
+        if k & bit != 0 {
+            parts.push(name);
+        }
+    }
+    parts.join("+")
+}
+
+fn count_mask(sh: &Shim, mask: i32) -> i64 {
+    [shim::F_WRITE, shim::F_FSYNC, shim::F_FDATASYNC, shim::F_FTRUNCATE, shim::F_RENAME].iter().filter(|b| mask & **b != 0).map(|b| sh.count(*b)).sum()
+}
+
+fn op_kind(op: &BOp) -> &'static str {
+    match op {
+        BOp::Insert { .. } => "insert",
+        BOp::Delete { .. } => "delete",
+        BOp::BatchDelete { .. } => "batch_delete",
+        BOp::UpdateMeta { .. } => "update_metadata",
+        BOp::Snapshot => "manual_snapshot",
+        BOp::Restart => "restart",
+    }
+}
+
+/// Execute one op; Ok(true) = acknowledged, Ok(false) = returned an error.
+fn exec(b: &kyrodb_engine::HnswBackend, op: &BOp) -> Result<bool, String> {
+    Ok(match op {
+        BOp::Insert { id, vec, meta } => b.insert(*id, vec.0.clone(), meta_to_hash(meta)).is_ok(),
+        BOp::Delete { id } => b.delete(*id).is_ok(),
+        BOp::BatchDelete { ids } => b.batch_delete(ids).is_ok(),
+        BOp::UpdateMeta { id, meta, merge } => b.update_metadata(*id, meta_to_hash(meta), *merge).is_ok(),
+        BOp::Snapshot => b.create_snapshot().is_ok(),
+        BOp::Restart => return Err("restart handled by caller".into()),
+    })
+}
+
+impl Prop for Storage {
+    type Case = Case;
+    fn part(&self) -> &'static str {
+        "storage"
+    }
+    fn shape(&self, tier: Tier) -> RawShape {
+        RawShape { head_len: 20, chunk_len: 20, min_chunks: 3, max_chunks: tier.pick(12, 20) }
+    }
+    fn max_shrink_iters(&self) -> u32 {
+        200
+    }
+    fn rule(&self) -> String {
+        "history x one injected fault (kind x n-th call x errno x partial length x repeat); the n-th-call dimension is sampled uniformly over the calls counted in a fault-free pass; non-trivial = the fault fired and (the failing operation targets an existing id, or a partial length > 0 was written, or the fault fired more than once = inside retry / rollback); distinct = hash of decoded case".into()
+    }
+    fn decode(&self, raw: &Raw, tier: Tier) -> Case {
+        let mut t = Tape::new(&raw.head);
+        let mut cfg = BackendCfg::decode(&mut t, &DIMS_SMALL[..3]);
+        cfg.fsync = t.pick(&[Fsync::Always, Fsync::Periodic0, Fsync::Never]);
+        cfg.rotate_bytes = t.pick(&[300u64, 64, 1 << 20]);
+        cfg.snapshot_interval = t.pick(&[3usize, 0, 1]);
+        cfg.capacity = 1000;
+        let pool = 3 + t.below(4);
+        // masks with several bits let one fault sequence hit the failing call AND the engine's own
+        // rollback (write/fsync failure followed by a failing truncate of the rollback)
+        let syncs = shim::F_FSYNC | shim::F_FDATASYNC;
+        let kind = t.pick(&[shim::F_WRITE, shim::F_WRITE, syncs, syncs, shim::F_RENAME, shim::F_WRITE | shim::F_FTRUNCATE, syncs | shim::F_FTRUNCATE, shim::F_WRITE | syncs]);
+        // a transient error (EIO/EINTR classification) costs 310 ms of engine back-off per
+        // exhausted retry loop: the quick tier prefers the non-retried errnos
+        let errnos: &[i32] = match tier {
+            Tier::Quick => &[libc::ENOSPC, libc::EDQUOT, libc::EACCES, libc::ENOSPC, libc::EACCES, libc::EIO, libc::EINTR, 0],
+            Tier::Thorough => &[libc::ENOSPC, libc::EIO, libc::EDQUOT, libc::EINTR, libc::EACCES, 0],
+        };
+        let fault = FaultSpec { kind, nth_sel: t.u16(), errno: t.pick(errnos), partial_sel: t.below(4) as u8, repeat: t.pick(&[1, 1, 2, 8]) };
+        let ops = raw.chunks.iter().map(|c| decode_bop(c, &cfg, pool, &[10, 3, 2, 3, 1, 1])).collect();
+        Case { cfg, pool, ops, fault }
+    }
+
+    fn run(&self, case: &Case, env: &CaseEnv) -> Result<CaseReport, Failure> {
+        let Some(sh) = Shim::get() else {
+            return Err(Failure::new("setup_failed", "syscall shim not loaded".to_string()));
+        };
+        let cfg = &case.cfg;
+        let mut rep = CaseReport::default();
+        // ---- pass 1: count the calls of the chosen kind (no fault) ----------------------------
+        let d1 = env.dir("count");
+        sh.begin(&d1);
+        let counted = (|| -> Result<i64, String> {
+            let mut b = cfg.create(&d1).map_err(|e| format!("{:#}", e))?;
+            let base = count_mask(sh, case.fault.kind);
+            for op in &case.ops {
+                match op {
+                    BOp::Restart => {
+                        drop(b);
+                        b = cfg.recover(&d1).map_err(|e| format!("{:#}", e))?;
+                    }
+                    o => {
+                        let _ = exec(&b, o);
+                    }
+                }
+            }
+            Ok(count_mask(sh, case.fault.kind) - base)
+        })();
+        sh.end();
+        let log1 = sh.take();
+        let n_calls = counted.map_err(|e| Failure::new("setup_failed", format!("fault-free pass failed: {}", e)))?;
+        if n_calls <= 0 {
+            rep.label("no_call_of_that_kind");
+            return Ok(rep);
+        }
+        let nth = 1 + (case.fault.nth_sel as i64 % n_calls);
+        // partial length relative to the size of the targeted write (from the fault-free log)
+        let mut write_sizes: Vec<usize> = log1.iter().filter_map(|e| if let shim::Eff::Write { data, .. } = e { Some(data.len()) } else { None }).collect();
+        write_sizes.sort_unstable();
+        let target_len = if case.fault.kind & shim::F_WRITE != 0 { write_sizes.get(write_sizes.len() / 2).copied().unwrap_or(8) } else { 0 };
+        let partial = match case.fault.partial_sel {
+            0 => 0,
+            1 => 1.min(target_len),
+            2 => target_len / 2,
+            _ => target_len.saturating_sub(1),
+        } as i64;
+
+        // ---- pass 2: the same history with the fault armed ---------------------------------------
+        let dir = env.dir("data");
+        sh.begin(&dir);
+        let mut b = match cfg.create(&dir) {
+            Ok(b) => b,
+            Err(e) => {
+                sh.end();
+                let _ = sh.take();
+                return Err(Failure::new("setup_failed", format!("{:#}", e)));
+            }
+        };
+        sh.arm(case.fault.kind, nth, case.fault.errno, partial, case.fault.repeat);
+        let mut model = Model::new();
+        let mut probe = 0usize;
+        let mut fired_before = 0;
+        let fname_s = kind_name(case.fault.kind);
+        let fname = fname_s.as_str();
+        let ename = shim::errno_name(case.fault.errno);
+        let result = (|| -> Result<(), Failure> {
+            for (i, op) in case.ops.iter().enumerate() {
+                let before: Dump = model.docs.clone();
+                let what = format!("op {} {} [fault: {} #{} -> {} after {} bytes, x{}]", i, op.short(), fname, nth, ename, partial, case.fault.repeat);
+                let mut restart_failed = false;
+                let acked = match op {
+                    BOp::Restart => {
+                        drop(std::mem::replace(&mut b, cfg.in_memory().map_err(|e| Failure::new("setup_failed", format!("{:#}", e)))?));
+                        match cfg.recover(&dir) {
+                            Ok(nb) => {
+                                b = nb;
+                                true
+                            }
+                            Err(_) => {
+                                // start-up hit the injected fault: the NEXT start-up (fault exhausted or not) must work
+                                restart_failed = true;
+                                let mut last = None;
+                                for _ in 0..3 {
+                                    match cfg.recover(&dir) {
+                                        Ok(nb) => {
+                                            last = Some(nb);
+                                            break;
+                                        }
+                                        Err(e) => {
+                                            if sh.fired() <= fired_before {
+                                                return Err(Failure::new("restart_fails_after_storage_fault", format!("{}: start-up fails although no fault fired: {:#}", what, e)));
+                                            }
+                                            fired_before = sh.fired();
+                                        }
+                                    }
+                                }
+                                match last {
+                                    Some(nb) => {
+                                        b = nb;
+                                        true
+                                    }
+                                    None => {
+                                        sh.disarm();
+                                        b = cfg.recover(&dir).map_err(|e| {
+                                            Failure::new("restart_fails_after_storage_fault", format!("{}: start-up keeps failing after the fault is gone: {:#}", what, e))
+                                                .with_sig(json!({"kind": "restart_fails_after_storage_fault", "fault": fname, "during": "restart"}))
+                                        })?;
+                                        true
+                                    }
+                                }
+                            }
+                        }
+                    }
+                    o => exec(&b, o).unwrap_or(false),
+                };
+                let fired_now = sh.fired();
+                let fault_in_op = fired_now > fired_before;
+                if acked && op.is_write() {
+                    // stored bits for an insert come from the live engine
+                    let bits = if let BOp::Insert { id, .. } = op { b.fetch_document(*id).map(|v| bits_of(&v)) } else { None };
+                    if matches!(op, BOp::Insert { .. }) && bits.is_none() {
+                        return Err(Failure::new("ack_not_visible", format!("{}: acknowledged insert not visible", what)));
+                    }
+                    model_apply(&mut model, op, bits);
+                }
+                let live = dump_backend(&b);
+                if let Some(d) = diff_dumps(&model.docs, &live) {
+                    let kind = if acked { "acknowledged_write_not_applied" } else { "failed_write_changed_live_state" };
+                    return Err(Failure::new(kind, format!("{}: returned {} but live state: {}", what, if acked { "Ok" } else { "Err" }, d))
+                        .with_sig(json!({"kind": kind, "fault": fname, "errno": ename, "during": op_kind(op)})));
+                }
+                if fault_in_op || !acked || restart_failed {
+                    rep.count("evaluations_judged", 1);
+                    if fault_in_op {
+                        rep.label(&format!("fired:{}:{}", fname, ename));
+                        let existing = match op {
+                            BOp::Insert { id, .. } | BOp::Delete { id } | BOp::UpdateMeta { id, .. } => before.contains_key(id),
+                            BOp::BatchDelete { ids } => ids.iter().any(|i| before.contains_key(i)),
+                            _ => false,
+                        };
+                        if existing || partial > 0 || fired_now - fired_before > 1 {
+                            rep.nontrivial = true;
+                        }
+                        if fired_now - fired_before > 1 {
+                            rep.label("fault_inside_retry_or_rollback");
+                        }
+                        if !acked {
+                            rep.label("operation_reported_failure");
+                        }
+                    }
+                    // strict recovery of a copy (outside the watched root: not faulted)
+                    probe += 1;
+                    let copy = env.dir(&format!("probe{}", probe));
+                    copy_dir(&dir, &copy).map_err(|e| Failure::new("setup_failed", e.to_string()))?;
+                    let r = cfg.recover(&copy);
+                    let verdict = match r {
+                        Err(e) => Err(Failure::new("restart_fails_after_storage_fault", format!("{}: strict recovery of the directory fails afterwards: {:#}", what, e))
+                            .with_sig(json!({"kind": "restart_fails_after_storage_fault", "fault": fname, "errno": ename, "during": op_kind(op), "op_acknowledged": acked}))),
+                        Ok(rb) => match diff_dumps(&model.docs, &dump_backend(&rb)) {
+                            None => Ok(()),
+                            Some(d) => Err(Failure::new(
+                                "restart_state_differs_after_storage_fault",
+                                format!("{}: call returned {}; after restart {} (model = acknowledged operations only)", what, if acked { "Ok" } else { "Err" }, d),
+                            )
+                            .with_sig(json!({"kind": "restart_state_differs_after_storage_fault", "fault": fname, "errno": ename, "during": op_kind(op), "op_acknowledged": acked, "truncate_faulted": case.fault.kind & shim::F_FTRUNCATE != 0}))),
+                        },
+                    };
+                    let _ = std::fs::remove_dir_all(&copy);
+                    verdict?;
+                }
+                fired_before = fired_now;
+                let _ = before;
+            }
+            Ok(())
+        })();
+        sh.disarm();
+        sh.end();
+        let _ = sh.take();
+        drop(b);
+        result?;
+        if sh.fired() == 0 {
+            rep.label("fault_never_fired");
+        }
+        Ok(rep)
+    }
+}
+
+pub fn run(ctx: &Ctx) {
+    ctx.assume("storage faults are injected at the libc boundary (write/fsync/fdatasync/ftruncate/rename under the data directory); the copy that is recovered after a fault is taken outside the watched root");
+    run_committed_replays(ctx, &Storage);
+    run_pbt(ctx, &Storage, ctx.tier.pick(600, 20_000));
+}
+
+pub fn replay(ctx: &Ctx, v: &serde_json::Value) -> Option<i32> {
+    replay_file(ctx, &Storage, v)
 }
